@@ -123,8 +123,12 @@ func (c *Channel) Close() error {
 
 	// Drain any pending requests.
 	go func() { c.wg.Wait(); close(c.rsp) }()
-	for range c.rsp {
-		// discard
+	for next := range c.rsp {
+		// Discard the response. Nobody will ever receive it, so its body must
+		// be closed here, or the underlying connection is leaked.
+		if next.rsp != nil {
+			next.rsp.Body.Close()
+		}
 	}
 	return nil
 }
